@@ -470,6 +470,36 @@ def broadcast_cases(fam, cases):
                         break
         except Exception as e:  # noqa: BLE001
             out.append(dict(cls="value", site=site, stratum="general", case=case, expected="values", observed=f"raised {type(e).__name__}: {e}"))
+        # all pairwise results of two (k,) collections: the collections given one more axis through expand_dims (A: (k, 1),
+        # B: (1, k)), in the positive and the negative spelling of the axis; position (m, n) is what the singles m and n give
+        if len(kinds) == 2 and "line3" not in kinds and start % (10 * k) == 0:
+            site2 = f"{op}({','.join(kinds)})/{dim}D/collection/pairwise-through-expand_dims"
+            firsts = [c["a"][0] for c in chunk[:k]]
+            seconds = [c["a"][1] for c in chunk[k:2 * k]]
+            case2 = {"first": firsts, "second": seconds}
+            try:
+                for spelling, (ax_a, ax_b) in (("", (1, 0)), ("/negative-axis", (-2, -3))):
+                    A = build_coll(kinds[0], firsts).expand_dims(ax_a)
+                    B = build_coll(kinds[1], seconds).expand_dims(ax_b)
+                    singles = {(m, n): _call(op, [build(kinds[0], firsts[m]), build(kinds[1], seconds[n])]) for m in range(k) for n in range(k)}
+                    if not all(v[0] == "ok" for v in singles.values()):
+                        continue
+                    st, val = _call(op, [A, B])
+                    if st != "ok":
+                        out.append(dict(cls="raise-on-independent", site=site2 + spelling, stratum="general", case=case2, expected="values",
+                                        observed=f"raised {err_name(val)}: {val}"))
+                        continue
+                    arr = np.asarray(coords_of(val))
+                    if arr.shape[:2] != (k, k):
+                        out.append(dict(cls="value", site=site2 + spelling, stratum="general", case=case2, expected={"shape": [k, k]}, observed={"shape": list(arr.shape)}))
+                        continue
+                    for (m, n), (_, sv) in singles.items():
+                        if not same_class(arr[m, n].reshape(-1), np.asarray(coords_of(sv)).reshape(-1)):
+                            out.append(dict(cls="value", site=site2 + spelling, stratum="general", case={**case2, "position": [m, n]},
+                                            expected=np.asarray(coords_of(sv)).tolist(), observed=arr[m, n].tolist()))
+                            break
+            except Exception as e:  # noqa: BLE001
+                out.append(dict(cls="value", site=site2, stratum="general", case=case2, expected="values", observed=f"raised {type(e).__name__}: {e}"))
         if start > 40 * 5 * k:
             break
     return out
